@@ -288,6 +288,9 @@ impl Gen {
                 1 => self.rng.gen_range(0..i64::MAX),
                 _ => self.rng.gen_range(0..(1i64 << bits_hint.min(20))),
             }
+        } else if self.rng.gen_bool(0.2) {
+            // spellings that begin with every digit of every radix (0xb1, 0XBB, 0b1011, 017, 0x1b ...)
+            *[7i64, 8, 9, 10, 11, 12, 13, 14, 15, 0xb1, 0xbb, 0xb0b, 0xc0ffee, 0xdead, 0xe, 0xf00d, 0x1b, 0xab, 64, 255, 0o17, 0o70].choose(&mut self.rng).unwrap()
         } else {
             self.small_const().max(0)
         }
